@@ -147,6 +147,8 @@ def r16_3(ctx, rep, roles, pm):
     eng = sym.Engine(fx, no_inline={roles.chitchat_compute_digest["id"], roles.scheduled_for_deletion_nodes["id"]})
     rows = eng.table(cs["id"], arg_terms={1: ("ptr", ("S", "self"), ())})
     for row in rows:
+        if row.exit == "backedge":
+            continue        # body of a loop (e.g. an exclusion set filled by a for loop)
         t = row.ret
         ok = t is not None and t[0] == "agg" and t[2] == "Syn"
         cid = T.field(t, "cluster_id") if ok else None
